@@ -5,10 +5,23 @@ import Mathlib.Analysis.Real.Sqrt
 import Mathlib.Algebra.Order.BigOperators.Ring.Finset
 import Mathlib.Tactic.Positivity
 import Mathlib.Tactic.GCongr
+import Mathlib.Analysis.SpecialFunctions.Trigonometric.Basic
 
 /-! Helper lemmas for C09: convex combinations of complex vectors, Cauchy–Schwarz, list sums. -/
 open Finset
 namespace Pms.Boo
+
+/-- the primitives at ℝ / ℂ -/
+noncomputable def cOps : Ops ℝ ℂ where
+  conj := starRingEnd ℂ
+  re := Complex.re
+  ofReal := Complex.ofReal
+  normSq := Complex.normSq
+  sqrt := Real.sqrt
+  pi := Real.pi
+  ofRat := fun q => (q : ℝ)
+  mkC := fun a b => ⟨a, b⟩
+
 
 /-- |Σ_j a_j z_j|² ≤ Σ_j a_j |z_j|² for a_j ≥ 0, Σ a_j ≤ 1 -/
 theorem normSq_comb_le (n : ℕ) (a : ℕ → ℝ) (z : ℕ → ℂ)
